@@ -113,3 +113,33 @@ fn signal_contract<const CLONES: usize>() {
 #[kani::proof] #[kani::unwind(6)] fn k_autodespawn_signal_c2() { signal_contract::<2>(); }
 //# id=K.autodespawn.signal.c3 props=C10,C07 strength=bounded shape="3 clones dropped one by one; entity id symbolic" tier=quick fns=AutoDespawner::prepare,AutoDespawner::try_recv,AutoDespawnSignal::clone,AutoDespawnSignalInner::drop
 #[kani::proof] #[kani::unwind(6)] fn k_autodespawn_signal_c3() { signal_contract::<3>(); }
+
+// ---------------------------------------------------------------------------------------------------------------
+// K.autodespawn.gc: garbage_collect_entities alone (C10, C07, C18): despawn requests are put on the channel directly (the
+// signal's own drop is covered by K.autodespawn.signal); ONE collection handles EVERY pending request, skipping entities
+// that are already gone without stopping, and drains the channel.
+// Shape: 2 pending requests a, b (in that order); which of them is already despawned: one harness each.
+// ---------------------------------------------------------------------------------------------------------------
+fn gc_contract<const DA: bool, const DB: bool>() {
+    let mut world = World::new();
+    let despawner = AutoDespawner::new();
+    let tx = despawner.sender.clone();
+    world.insert_resource(despawner);
+    let a = world.spawn_empty().id();
+    let b = world.spawn_empty().id();
+    let keep = world.spawn_empty().id();
+    if DA { world.despawn(a); }
+    if DB { world.despawn(b); }
+    let _ = tx.send(a);
+    let _ = tx.send(b);
+    garbage_collect_entities(&mut world);
+    assert!(!world.verif_is_alive(a) && !world.verif_is_alive(b),
+        "garbage_collect_entities: one collection despawns EVERY requested entity; entities already gone are skipped without stopping the collection");
+    assert!(world.verif_is_alive(keep), "garbage_collect_entities: entities that were not requested are untouched");
+    assert!(world.resource::<AutoDespawner>().try_recv().is_none(), "garbage_collect_entities: drains the channel");
+    core::mem::forget(tx); core::mem::forget(world);
+}
+//# id=K.autodespawn.gc.first_gone props=C10,C07,C18 strength=bounded shape="2 pending requests; the FIRST entity is already despawned" tier=off fns=garbage_collect_entities,AutoDespawner::try_recv
+#[kani::proof] #[kani::unwind(4)] fn k_autodespawn_gc_first_gone() { gc_contract::<true, false>(); }
+//# id=K.autodespawn.gc.none_gone props=C10,C07 strength=bounded shape="2 pending requests; both entities alive" tier=off fns=garbage_collect_entities,AutoDespawner::try_recv
+#[kani::proof] #[kani::unwind(4)] fn k_autodespawn_gc_none_gone() { gc_contract::<false, false>(); }
